@@ -1,4 +1,4 @@
-import Minimq.Proofs.Writer
+import Minimq.Proofs.Packets
 import Minimq.Out
 /-
 The transmit arena (`outbound.rs`): layout invariant, correctness of `compact`, and what each
@@ -7,11 +7,16 @@ operation of the arena does to the bytes of the retained packets.
 namespace Minimq
 open Gen Outbound
 
-/-- What an encoder handed `cap` bytes of scratch space may return: a non-empty packet that lies
-inside them. -/
+/-- One complete MQTT control packet as far as framing goes: a header byte, the canonical
+remaining length, and exactly that many bytes. -/
+def Framed (bs : Bytes) : Prop :=
+  ∃ hdr body, bs = hdr :: (encodeVarint body.length ++ body) ∧ body.length ≤ MQTT_VARINT_MAX
+
+/-- What an encoder handed `cap` bytes of scratch space may return: a non-empty, framed packet that
+lies inside them. -/
 def EncOk {ε : Type} (enc : Nat → (Nat → Nat → Bytes) → Except ε (Nat × Bytes)) : Prop :=
   ∀ cap view off pkt, (∀ i n, (view i n).length ≤ n) → enc cap view = .ok (off, pkt) →
-    off + pkt.length ≤ cap ∧ 0 < pkt.length
+    off + pkt.length ≤ cap ∧ 0 < pkt.length ∧ Framed pkt
 
 /-- The packets an encoder produces are of type `typ` (high nibble of the first byte). -/
 def EncTyp {ε : Type} (enc : Nat → (Nat → Nat → Bytes) → Except ε (Nat × Bytes)) (typ : Nat) : Prop :=
@@ -23,26 +28,18 @@ theorem encodeVarint_length_le (n : Nat) : (encodeVarint n).length ≤ 4 := by
 
 theorem finalize_bound {w : W} {typ flags off : Nat} {pkt : Bytes} (h : w.finalize typ flags = .ok (off, pkt))
     (hfit : w.body = [] ∨ MAX_FIXED_HEADER_SIZE + w.body.length ≤ w.cap) :
-    off + pkt.length ≤ w.cap ∧ 0 < pkt.length := by
-  unfold W.finalize writeVarint at h
-  split at h
-  · simp at h
-  · rename_i rl hrl
-    split at hrl
-    · simp at hrl
-    · simp only [Option.some.injEq] at hrl
-      subst hrl
-      split at h
-      · simp at h
-      · rename_i hcap
-        simp only [Except.ok.injEq, Prod.mk.injEq] at h
-        obtain ⟨rfl, rfl⟩ := h
-        have := encodeVarint_length_le w.body.length
-        have h5 : MAX_FIXED_HEADER_SIZE = 5 := by decide
-        simp only [List.length_cons, List.length_append, List.cons_append]
-        rcases hfit with h0 | h1
-        · rw [h0] at this ⊢; simp at this ⊢; omega
-        · omega
+    off + pkt.length ≤ w.cap ∧ 0 < pkt.length ∧ Framed pkt := by
+  obtain ⟨f1, f2, f3, f4⟩ := finalize_ok h
+  have hv := encodeVarint_length_le w.body.length
+  have hvl := encodeVarint_length w.body.length
+  have h5 : MAX_FIXED_HEADER_SIZE = 5 := by decide
+  refine ⟨?_, ?_, ⟨_, _, f3, f1⟩⟩
+  · rw [f3, f4]
+    simp only [List.length_cons, List.length_append]
+    rcases hfit with h0 | h1
+    · rw [h0] at hv hvl ⊢; simp at hv hvl ⊢; omega
+    · omega
+  · rw [f3]; simp
 
 theorem finalize_typ {w : W} {typ flags off : Nat} {pkt : Bytes} (h : w.finalize typ flags = .ok (off, pkt))
     (ht : typ < 16) : ∃ x rest, pkt = x :: rest ∧ x.toNat / 16 = typ := by
@@ -447,7 +444,7 @@ theorem encodeAt_spec {ε : Type} (o : Outbound) (enc : Nat → (Nat → Nat →
   | error e => exact ⟨c1, c2, c3, c4, c5, c6, c7, c8, fun _ _ hf => by simp at hf⟩
   | ok r =>
     obtain ⟨off, pkt⟩ := r
-    obtain ⟨hb, hp⟩ := he _ _ off pkt (fun i n => slice_length_le _ _ _) hres
+    obtain ⟨hb, hp, _⟩ := he _ _ off pkt (fun i n => slice_length_le _ _ _) hres
     have hu := c1.used_le
     simp only [capacity] at hb
     have hfit : o.compact.used + off + pkt.length ≤ o.compact.buf.length := by omega
